@@ -123,7 +123,71 @@ fn check_history_step(report: &mut Report, case_id: &Value, si: usize, rec: &Ste
     }
 }
 
+
+/// Just before the collector writes `GC_LOCK`, ANOTHER collector's lock appears (it checked a moment earlier and
+/// won the race): the write is refused, genuinely.  Records whether this collector then removes the lock file.
+struct OtherCollectorWins {
+    root: std::path::PathBuf,
+    done: std::sync::atomic::AtomicBool,
+    removed_lock: std::sync::atomic::AtomicBool,
+}
+
+impl conserve::transport::verif_hooks::Interceptor for OtherCollectorWins {
+    fn before(&self, op: &conserve::transport::verif_hooks::OpInfo) -> conserve::transport::verif_hooks::Decision {
+        use conserve::transport::verif_hooks::{Decision, Verb};
+        use std::sync::atomic::Ordering;
+        let path = op.path.trim_start_matches("./");
+        if op.verb == Verb::Write && path == "GC_LOCK" && !self.done.swap(true, Ordering::SeqCst) {
+            std::fs::write(self.root.join("GC_LOCK"), b"{\"owner\":\"the other collector\"}\n").unwrap();
+        } else if op.verb == Verb::RemoveFile && path == "GC_LOCK" {
+            self.removed_lock.store(true, Ordering::SeqCst);
+        }
+        Decision::Proceed
+    }
+    fn after(&self, _op: &conserve::transport::verif_hooks::OpInfo, _outcome: &conserve::transport::verif_hooks::Outcome) {}
+}
+
+/// Directed, real code + the property's oracle: "only an explicit delete or gc removes files, and then only …
+/// its OWN lock file".  Two collectors start together; this one loses the race for the lock.  It must fail and
+/// leave the winner's lock alone — also afterwards, from whatever it does when its guard is dropped.
+fn losing_collector_leaves_the_lock(report: &mut Report) {
+    use conserve::{Archive, DeleteOptions};
+    for workers in [1usize, 4] {
+        let work = tempfile::tempdir().unwrap();
+        let (src, arch) = (work.path().join("src"), work.path().join("arch"));
+        std::fs::create_dir(&src).unwrap();
+        std::fs::write(src.join("f"), b"some content").unwrap();
+        create_archive(&arch);
+        let b0 = real_backup(&arch, &src, &BackupParams::default(), crate::icept::IceptConfig::default());
+        if !b0.result.starts_with("result ok") {
+            return;
+        }
+        let ic = std::sync::Arc::new(OtherCollectorWins { root: arch.clone(), done: Default::default(), removed_lock: Default::default() });
+        let rt = tokio::runtime::Builder::new_multi_thread().worker_threads(workers).enable_all().build().unwrap();
+        let (ic2, a2) = (ic.clone(), arch.clone());
+        let r = rt.block_on(async move {
+            let transport = conserve::transport::Transport::local(&a2).with_interceptor(ic2);
+            let archive = Archive::open(transport).await?;
+            archive.delete_bands(&[], &DeleteOptions { dry_run: false, break_lock: false }, conserve::monitor::test::TestMonitor::arc()).await
+        });
+        // whatever was detached gets its chance, then the runtime goes
+        std::thread::sleep(std::time::Duration::from_millis(150));
+        drop(rt);
+        let lock_now = std::fs::read(arch.join("GC_LOCK")).ok();
+        let case = json!({"directed": "a collector loses the race for GC_LOCK", "runtime_workers": workers, "result": r.as_ref().map(|_| "ok".to_string()).unwrap_or_else(|e| err_text(e))});
+        report.case(&format!("losing-collector/{workers}"), true);
+        report.hit("directed:losing-collector");
+        if r.is_ok() {
+            report.oracle_fail("gc:ran-although-lock-taken", case.clone(), "a collector whose lock write was refused went ahead", json!(null));
+        }
+        if ic.removed_lock.load(std::sync::atomic::Ordering::SeqCst) || lock_now.as_deref() != Some(b"{\"owner\":\"the other collector\"}\n".as_slice()) {
+            report.oracle_fail("gc:removed-anothers-lock", case.clone(), "the collector that lost the race for GC_LOCK removed (or altered) the winner's lock file", json!({"issued_remove": ic.removed_lock.load(std::sync::atomic::Ordering::SeqCst), "lock_file_now": lock_now.map(|b| String::from_utf8_lossy(&b).to_string())}));
+        }
+    }
+}
+
 pub fn run(tier: &str, seed: u64, report: &mut Report) {
+    losing_collector_leaves_the_lock(report);
     let thorough = tier == "thorough";
     direct_transport_test(report);
     // ---- histories with byte-for-byte snapshots
